@@ -334,6 +334,15 @@ fn case(r: &mut Rng, res: &mut CaseResult) {
         }
         // frames still arriving after the close are the server's business; none are sent
         h.inject(conn_close_frame(code, &text));
+        if stalled && r.bool() {
+            // the server's heartbeat sender does not know about the close: heartbeats may
+            // still arrive while the client is flushing what it had queued
+            std::thread::sleep(Duration::from_micros(r.range(0, 300)));
+            for _ in 0..r.usize(1, 3) {
+                h.inject(wire::enc_raw(wire::T_HEARTBEAT, 0, &[]));
+            }
+            res.obs("heartbeats_arriving_after_the_servers_close", 1);
+        }
         if stalled {
             std::thread::sleep(Duration::from_micros(r.range(0, 500)));
             h.grant(usize::MAX);
